@@ -24,13 +24,13 @@ import (
 
 // LockOps is the alphabet.
 var LockOps = []string{
-	"attach-rw-same",    // a second instance attaches for writing with an equivalent invocation
-	"attach-rw-changed", // ... with included declarations whose meaning changed
-	"attach-ro-same",    // read-only attach (mrp --inspect)
-	"attach-ro-changed", // read-only attach with changed declarations
+	"attach-rw-same",     // a second instance attaches for writing with an equivalent invocation
+	"attach-rw-changed",  // ... with included declarations whose meaning changed
+	"attach-ro-same",     // read-only attach (mrp --inspect)
+	"attach-ro-changed",  // read-only attach with changed declarations
 	"attach-rw-cosmetic", // for writing, declarations reformatted / commented only
-	"invoke",            // a second instance tries to create the pipestance again
-	"unlock",            // the current holder gives the lock up (its mrp ends)
+	"invoke",             // a second instance tries to create the pipestance again
+	"unlock",             // the current holder gives the lock up (its mrp ends)
 }
 
 // LockSeq is the replayable unit.
